@@ -73,10 +73,8 @@ def rejects (rev : Bool) (limit : Option Int) (st : Option SortType) : Bool :=
   | some .other => true
   | _ => false
 
-def badLimit (limit : Option Int) : Bool :=
-  match limit with
-  | some l => decide (l < 1)
-  | none => false
+/-- a limit below 1 is rejected whatever else is asked -/
+def badLimit (limit : Option Int) : Bool := limitInvalid limit
 
 /-- is the answer required to be the stable one? -/
 def stableRequired (st : Option SortType) : Bool :=
